@@ -12,7 +12,21 @@
    the same value (a lost update) or an unlogged modification make every interleaving fail.
    Harness events: 111 = the counter is known to hold v now, 113 = "+= v" executed under the object's own lock
    (result not observable), 112 = final read returned v after all other threads were joined.  Counters first seen in
-   mid-life (reference counts of objects created earlier) start Unknown and are pinned by their first logged result. *)
+   mid-life (reference counts of objects created earlier) start Unknown and are pinned by their first logged result.
+
+   The rest of the Atomic<T> / AtomicCount interface returns values, and every returned value must be explained by the
+   same linearization (harness events, logged by the calling thread right after the call, v = the returned value):
+        114  ++a   returned v :  val' = val + 1 /\ v = val'        115  a++  returned v :  v = val /\ val' = val + 1
+        116  --a   returned v :  val' = val - 1 /\ v = val'        117  a--  returned v :  v = val /\ val' = val - 1
+        118  read (operator T, operator~, AtomicCount::operator int) returned v :  v = val
+        119  a = v (store)      :  val' = v
+        120..125  a == c, a != c, a < c, a <= c, a > c, a >= c returned r (v = (c + 1000) * 2 + r) :  r = (val op c)
+        126  -a    returned v :  v = -val                           127  !a   returned r :  r = (val = 0)
+   A counter with such events is linearized without the "+= commutes" shortcut (the order of a += and a read matters).
+
+   Reference counts (counters that were not installed by a 111 event) additionally obey the life-cycle rule: the
+   decrement that returns 0 is the last operation on the counter (the object is destroyed by whoever got the 0; any
+   later increment or decrement would be an access to a destroyed object).                                         *)
 EXTENDS Integers, Sequences, FiniteSets, TLC, Json, IOUtils
 
 T == ndJsonDeserialize(IOEnv.TRACE)
@@ -25,13 +39,13 @@ RECURSIVE TotalFrom(_)
 TotalFrom(x) == IF x > NExec THEN 0 ELSE ObjTotal(T[x].objs, 1) + 1 + TotalFrom(x + 1)
 Total == TotalFrom(1)     \* one step per event, one per object, one per execution
 
-VARIABLES x, oi, pos, val
-vars == <<x, oi, pos, val>>
+VARIABLES x, oi, pos, val, dead
+vars == <<x, oi, pos, val, dead>>
 Unknown == -1000000
 Ev == T[x].objs[oi].ev
 Pos0(xx, o) == IF xx <= NExec /\ o <= Len(T[xx].objs) THEN [t \in 1..Len(T[xx].objs[o].ev) |-> 0] ELSE <<>>
 
-Init == x = 1 /\ oi = 1 /\ pos = Pos0(1, 1) /\ val = Unknown
+Init == x = 1 /\ oi = 1 /\ pos = Pos0(1, 1) /\ val = Unknown /\ dead = FALSE
 
 Th == 1..Len(pos)
 InObj == x <= NExec /\ oi <= Len(T[x].objs)
@@ -42,20 +56,47 @@ OthersDone(t) == \A u \in Th \ {t} : pos[u] = Len(Ev[u])
 \* thread first, so that they do not multiply the interleavings TLC has to try
 Next113(t) == pos[t] < Len(Ev[t]) /\ Ev[t][pos[t] + 1].k = 113
 Next111(t) == pos[t] < Len(Ev[t]) /\ Ev[t][pos[t] + 1].k = 111
+ObsKinds == 114..127
+HasObs == \E u \in Th : \E i \in 1..Len(Ev[u]) : Ev[u][i].k \in ObsKinds
+\* a counter installed by the harness (111) is a plain counter; any other is a reference count of some object
+\* (the harness installs a counter before it starts the threads, so a 111 event is the first event of its thread)
+IsRefCount == \A u \in Th : Len(Ev[u]) = 0 \/ Ev[u][1].k # 111
+CmpHolds(k, a, c) == IF k = 120 THEN a = c ELSE IF k = 121 THEN a # c ELSE IF k = 122 THEN a < c
+                     ELSE IF k = 123 THEN a <= c ELSE IF k = 124 THEN a > c ELSE a >= c
+\* the counter's value after event e of thread t, or Bad if the specification cannot produce e's result now
+Bad == -2000000
+Known == val # Unknown
+After(e, t) ==
+   IF e.k = 2 THEN (IF val = Unknown \/ e.v = val + 1 THEN e.v ELSE Bad)
+   ELSE IF e.k = 4 THEN (IF val = Unknown \/ e.v = val - 1 THEN e.v ELSE Bad)
+   ELSE IF e.k = 111 THEN e.v
+   ELSE IF e.k = 113 THEN (IF Known THEN val + e.v ELSE Bad)
+   ELSE IF e.k = 112 THEN (IF OthersDone(t) /\ val = e.v THEN val ELSE Bad)
+   ELSE IF e.k = 114 THEN (IF Known /\ e.v = val + 1 THEN e.v ELSE Bad)
+   ELSE IF e.k = 115 THEN (IF Known /\ e.v = val THEN val + 1 ELSE Bad)
+   ELSE IF e.k = 116 THEN (IF Known /\ e.v = val - 1 THEN e.v ELSE Bad)
+   ELSE IF e.k = 117 THEN (IF Known /\ e.v = val THEN val - 1 ELSE Bad)
+   ELSE IF e.k = 118 THEN (IF Known /\ e.v = val THEN val ELSE Bad)
+   ELSE IF e.k = 119 THEN e.v
+   ELSE IF e.k \in 120..125 THEN (IF Known /\ ((e.v % 2 = 1) = CmpHolds(e.k, val, (e.v \div 2) - 1000)) THEN val ELSE Bad)
+   ELSE IF e.k = 126 THEN (IF Known /\ e.v = 0 - val THEN val ELSE Bad)
+   ELSE IF e.k = 127 THEN (IF Known /\ ((e.v = 1) = (val = 0)) THEN val ELSE Bad)
+   ELSE Bad
 Consume(t) ==
   /\ InObj /\ pos[t] < Len(Ev[t])
+  /\ ~dead                                                             \* nothing happens to a destroyed object
   /\ (\E u \in Th : Next111(u)) => Next111(t)                        \* a known value is installed before anything else
-  /\ (~\E u \in Th : Next111(u)) => \A u \in Th : Next113(u) => (Next113(t) /\ t <= u)
-  /\ LET e == Ev[t][pos[t] + 1] IN
-     \/ /\ e.k = 2 /\ (val = Unknown \/ e.v = val + 1) /\ val' = e.v
-     \/ /\ e.k = 4 /\ (val = Unknown \/ e.v = val - 1) /\ val' = e.v
-     \/ /\ e.k = 111 /\ val' = e.v
-     \/ /\ e.k = 113 /\ val # Unknown /\ val' = val + e.v
-     \/ /\ e.k = 112 /\ OthersDone(t) /\ val = e.v /\ UNCHANGED val
+  /\ (~\E u \in Th : Next111(u)) => (IF IsRefCount THEN TRUE ELSE IF HasObs THEN TRUE
+                                       ELSE \A u \in Th : Next113(u) => (Next113(t) /\ t <= u))
+  /\ LET e == Ev[t][pos[t] + 1]
+         nv == After(e, t) IN      \* (one expression instead of one disjunct per kind: TLC would try every disjunct)
+     /\ nv # Bad
+     /\ val' = nv
+     /\ dead' = (IsRefCount /\ e.k = 4 /\ e.v = 0)
   /\ pos' = [pos EXCEPT ![t] = @ + 1]
   /\ UNCHANGED <<x, oi>>
 NextObj == /\ InObj /\ ObjDone
-           /\ oi' = oi + 1 /\ pos' = Pos0(x, oi + 1) /\ val' = Unknown /\ UNCHANGED x
+           /\ oi' = oi + 1 /\ pos' = Pos0(x, oi + 1) /\ val' = Unknown /\ dead' = FALSE /\ UNCHANGED x
 \* high-contention executions carry only totals: final value = initial value + sum of all operations
 RECURSIVE SeqSum(_, _)
 SeqSum(q, i) == IF i > Len(q) THEN 0 ELSE q[i] + SeqSum(q, i + 1)
@@ -66,9 +107,18 @@ SumsOK(xx) == ("sum" \in DOMAIN T[xx]) =>
                 \* multiplicative read-modify-write operators: n concurrent "*= 2" then n concurrent "/= 2"
                 /\ T[xx].prod.afterMul = T[xx].prod.init * Pow2(T[xx].prod.doublings)
                 /\ T[xx].prod.afterDiv = T[xx].prod.init
+\* hand-off executions (RefHandoff.tla): the put / got events of a Mutex-protected Queue in the order they happened.
+\* The queue specification replayed over them: a got returns the oldest item not yet taken, never from an empty queue;
+\* every item is put once; at the end nothing is left.
+RECURSIVE ChanReplay(_, _, _, _)
+ChanReplay(ev, i, qq, seen) ==
+   IF i > Len(ev) THEN qq = <<>>
+   ELSE IF ev[i].k = 130 THEN ev[i].v \notin seen /\ ChanReplay(ev, i + 1, Append(qq, ev[i].v), seen \cup {ev[i].v})
+   ELSE qq # <<>> /\ Head(qq) = ev[i].v /\ ChanReplay(ev, i + 1, Tail(qq), seen)
+ChanOK(xx) == ("chan" \in DOMAIN T[xx]) => ChanReplay(T[xx].chan, 1, <<>>, {})
 NextExec == /\ x <= NExec /\ oi > Len(T[x].objs)
-            /\ SumsOK(x)
-            /\ x' = x + 1 /\ oi' = 1 /\ pos' = Pos0(x + 1, 1) /\ val' = Unknown
+            /\ SumsOK(x) /\ ChanOK(x)
+            /\ x' = x + 1 /\ oi' = 1 /\ pos' = Pos0(x + 1, 1) /\ val' = Unknown /\ dead' = FALSE
 Next == (\E t \in Th : Consume(t)) \/ NextObj \/ NextExec
 TraceSpec == Init /\ [][Next]_vars
 \* accepted iff every counter of every execution has a linearization
